@@ -66,6 +66,31 @@ impl PatternNode {
     }
   }
 }
+impl PatternNode {
+  /// the longest literal among the named tokens only
+  fn fixed_string_named(&self) -> Cow<str> {
+    match &self {
+      PatternNode::Terminal { text, is_named, .. } => {
+        if *is_named {
+          Cow::Borrowed(text)
+        } else {
+          Cow::Borrowed("")
+        }
+      }
+      PatternNode::MetaVar { .. } => Cow::Borrowed(""),
+      PatternNode::Internal { children, .. } => children
+        .iter()
+        .map(|n| n.fixed_string_named())
+        .fold(Cow::Borrowed(""), |longest, curr| {
+          if longest.len() >= curr.len() {
+            longest
+          } else {
+            curr
+          }
+        }),
+    }
+  }
+}
 impl<'r, D: Doc> From<Node<'r, D>> for PatternNode {
   fn from(node: Node<'r, D>) -> Self {
     convert_node_to_pattern(node)
@@ -157,7 +182,13 @@ impl<L: Language> Pattern<L> {
   }
 
   pub fn fixed_string(&self) -> Cow<str> {
-    self.node.fixed_string()
+    match self.strictness {
+      MatchStrictness::Cst | MatchStrictness::Smart => self.node.fixed_string(),
+      // unnamed pattern tokens can be skipped from `ast` on: only named tokens are required
+      MatchStrictness::Ast | MatchStrictness::Relaxed => self.node.fixed_string_named(),
+      // token text is not compared at all under `signature`
+      MatchStrictness::Signature => Cow::Borrowed(""),
+    }
   }
 
   /// Get all defined variables in the pattern.
